@@ -85,7 +85,10 @@ def fieldOfGo (i : Nat) (f : Mav.Msg.GoField) : Option SField := do
   let nm := if f.mavname ≠ "" then f.mavname else snakeLower f.goName
   let ext := f.mavext == "true"
   if f.mavenum ≠ "" then
+    -- an enum field is a Go uint64 whose wire type is one of the integer types enums may use
+    if !f.elemIsUint64 then none else
     let t ← Gen.fieldTypeFromGo f.mavenum
+    if !(t == .uint8 || t == .int8 || t == .uint16 || t == .uint32 || t == .int32 || t == .uint64) then none else
     pure { name := nm, ty := t, arr := if f.isArray then some f.arrLen else none, ext := ext, idx := i }
   else if f.elemType == "string" then
     if f.isArray then none else
